@@ -109,7 +109,10 @@ def cases(rng, n):
         D = r4(rng, 0.3, 2)
         out.append({'kind': 'ehep', 'params': {'D': D, 'rho_0': r4(rng, 0.5, 3), 'up': r4(rng, 0.0, 0.2) * D, 'xtilde': r4(rng, 0.5, 1.5), 'xmax': 10.0, 'tmax': 10.0},
                     'pts': sorted(r4(rng, 0.01, 4.0) for _ in range(10)), 't': r4(rng, 0.3, 3)})
-        out.append({'kind': 'mader', 'params': {'p_cj': r4(rng, 0.1, 1), 'd_cj': r4(rng, 0.3, 1.5), 'gamma': r4(rng, 2.5, 3.5), 'u_piston': 0.0}, 't': r4(rng, 3, 8), 'xmax': 3.0})
+        # the whole slab from the front to the piston (fan, transition cell and constant state), gamma away from 3, with and without a moving piston
+        dcj = r4(rng, 0.3, 1.5); tm = r4(rng, 3, 8)
+        for gam_, up_ in ((r4(rng, 2.2, 2.8), 0.0), (r4(rng, 3.2, 3.6), r4(rng, 0.02, 0.1) * dcj)):
+            out.append({'kind': 'mader', 'params': {'p_cj': r4(rng, 0.1, 1), 'd_cj': dcj, 'gamma': gam_, 'u_piston': up_}, 't': tm, 'xmax': 0.98 * dcj * tm})
         out.append({'kind': 'rmtv', 'params': {'bigamma': r4(rng, 0.3, 3)}, 'pts': sorted(r4(rng, 0.05, 1.2) for _ in range(6))})
     return out
 
